@@ -1,8 +1,11 @@
 """C14 — The command line tool never emits more bytes than it was given."""
 import os
+import warnings
 
 import clirun
 from props import cli_common as cc
+
+warnings.simplefilter('ignore')
 
 META = {
     'rule': 'main-loop scenarios (random trees x 5 output modes x fake minify results at |src|-k, |src|, |src|+k, non-ASCII, failure, '
@@ -24,10 +27,70 @@ REAL_SOURCES = [
 ]
 
 
+def boundary_sources():
+    """sources whose minified size is within two bytes of their own size, built from atoms that grow when minified
+    (`1if x else 2` needs a space) and atoms that shrink (blanks, a final newline), with and without a shebang, with LF and
+    CRLF line ends, with and without non-ASCII text: the size rule is decided at exactly these boundaries"""
+    import python_minifier
+    grow = ['a=1if b else 2', 'c=0in d', 'e=1or 3', 'f=[1for g in h]', "k='é'if 0in m else'ü'"]
+    shrink = ['', ' ', '  ', '\n', ' \n']
+    heads = ['', '#!/bin/sh\n', '#!/usr/bin/env python\n', '#!/usr/bin/env python']
+    out = []
+    seen = set()
+    for head in heads:
+        for n_grow in (1, 2, 3):
+            for pad in shrink:
+                for nl in ('\n', '\r\n'):
+                    body = '\n'.join(grow[:n_grow]) + pad
+                    text = head + body if head.endswith('\n') or not head else head + '\n' + body
+                    if head and not head.endswith('\n') and n_grow == 3:
+                        text = head          # a file that is only a shebang, no final newline
+                    src = text.replace('\n', nl).encode('utf-8')
+                    if src in seen:
+                        continue
+                    seen.add(src)
+                    try:
+                        m = python_minifier.minify(src).encode('utf-8')
+                    except Exception:
+                        continue
+                    if abs(len(m) - len(src)) <= 2:
+                        out.append(src)
+    return out
+
+
+def subprocess_runs(ctx):
+    """the real command line tool as a process, with a standard output that is not UTF-8: the bytes on the pipe are counted"""
+    import subprocess
+    import sys
+    import common
+    srcs = ['x="é"*3\n'.encode('utf-8'), "x=1if y else'é'".encode('utf-8'), 'print("Привет, мир! 😀")\n'.encode('utf-8'), b'x=1\n']
+    for src in srcs:
+        for enc in ('ascii', 'latin-1', 'utf-8'):
+            for mode in ('stdin', 'file'):
+                with cc.Scratch() as d:
+                    env = dict(os.environ, PYTHONIOENCODING=enc, PYTHONPATH=common.REPO_SRC)
+                    env.pop('PYMINIFY_FORCE_BEST_EFFORT', None)
+                    if mode == 'file':
+                        with open(os.path.join(d, 'm.py'), 'wb') as f:
+                            f.write(src)
+                        p = subprocess.run([common.PY, '-m', 'python_minifier', 'm.py'], cwd=d, env=env, stdout=subprocess.PIPE, stderr=subprocess.PIPE, timeout=60)
+                    else:
+                        p = subprocess.run([common.PY, '-m', 'python_minifier', '-'], cwd=d, env=env, input=src, stdout=subprocess.PIPE, stderr=subprocess.PIPE, timeout=60)
+                ctx.count()
+                ctx.bump('subprocess', '%s/%s/exit%d' % (enc, mode, p.returncode))
+                ctx.mark_nontrivial(repr((src, enc, mode)))
+                if p.returncode == 0 and len(p.stdout) > len(src):
+                    ctx.add_violation({'input': {'source': src.decode('latin-1'), 'mode': 'subprocess-' + mode, 'flags': ['PYTHONIOENCODING=' + enc]},
+                                       'what': 'with a %s standard output the tool emitted %d bytes for a %d byte source' % (enc, len(p.stdout), len(src)),
+                                       'observed': repr(p.stdout)[:300], 'found_by': 'subprocess', 'oracle': 'subprocess'})
+
+
 def real_runs(ctx):
     modes = ['stdout', 'stdin', 'output', 'inplace', 'stdin-output']
     flagsets = [(), ('--no-rename-locals', '--no-hoist-literals'), ('--remove-literal-statements',), ('--rename-globals',)]
-    for src in REAL_SOURCES:
+    sources = REAL_SOURCES + (boundary_sources() if len(REAL_SOURCES) > 1 else [])
+    ctx.bump('real_sources', 'boundary', len(sources) - len(REAL_SOURCES))
+    for src in sources:
         for mode in modes:
             for flags in flagsets[:ctx.scale(2, 4)]:
                 if ctx.time_left() < 15:
@@ -66,6 +129,7 @@ def run(ctx):
     d = cc.run_correspondence(ctx, ctx.scale(300, 4000))
     ctx.stage('correspondence', run_diffs=d)
     real_runs(ctx)
+    subprocess_runs(ctx)
 
 
 def search(ctx):
